@@ -1,10 +1,89 @@
-import Sourmash.Lemmas.SampleList
+import Sourmash.Lemmas.SampleInv
 /-! Property C01 — a sketch always holds exactly the sample its parameters define.
-Property theorems only; helper lemmas live in `Sourmash/Lemmas/Sample*.lean`. -/
+Property theorems only; helper lemmas live in `Sourmash/Lemmas/Sample*.lean`.
+
+* `runVec mh H` / `runTree mh H` run the executable models of `KmerMinHash` / `KmerMinHashBTree`
+  (`Model/MinHash.lean`, branch for branch the Rust code) on the history `H`;
+* `runSpec kind mh H` interprets `H` on the abstract finite map of `Spec/Sample.lean`
+  (insert/accumulate iff `h ≤ maxHash`; on a num sketch evict the largest while more than `num` are
+  held; `add h 0` deletes on the vector type and is a no-op on the tree type; merge = key union with
+  summed abundances, then the same eviction; tracking of the result = both operands track);
+* `H : Hist` is any finite tree of `add / set / remove / remove_many / clear` steps and merges with
+  arbitrarily built second operands, over unbounded `Nat` hashes (so every u64 value, duplicates and
+  the boundary values 0, ceiling−1, ceiling, ceiling+1, 2^64−1 are instances);
+* `H.WF mh`: every sketch of the history has exactly one of `num ≥ 1`, `maxHash ≥ 1`.
+Abundances are `Nat`; the real `u64` sums agree as long as they stay below 2^64. -/
 namespace Sourmash.C01
-open Sample
+open Sample MH
+
+/-- **T-vec_refines**: after ANY history the vector-backed sketch shows (`mins()`, `abunds()`)
+    exactly the abstract sample, and its representation invariant holds (hashes strictly increasing,
+    abundances aligned, at most `num` hashes, all ≤ the ceiling). -/
+theorem vec_refines (mh : Nat) (H : Hist) (hwf : H.WF mh) :
+    vecObs (runVec mh H) = (runSpec .vec mh H).obs ∧ VInv (runVec mh H) :=
+  ⟨(runVec_ref mh H hwf).obs, (runVec_ref mh H hwf).inv (runSpec_inv .vec mh H hwf)⟩
+
+/-- **T-tree_refines**: the same for the tree-backed sketch (which has no `set`), with
+    `current_max` = the largest hash held. -/
+theorem tree_refines (mh : Nat) (H : Hist) (hwf : H.WF mh) (hns : H.NoSet) :
+    treeObs (runTree mh H) = (runSpec .tree mh H).obs ∧ TInv (runTree mh H) :=
+  ⟨(runTree_ref mh H hwf hns).obs, (runTree_ref mh H hwf hns).inv (runSpec_inv .tree mh H hwf)⟩
+
+/-- **T-vec_tree_equiv**: for histories whose inserted abundances are all ≥ 1 the two sketch types
+    are observationally identical (hashes, abundances; hence size, sum, emptiness). -/
+theorem vec_tree_equiv (mh : Nat) (H : Hist) (hwf : H.WF mh) (hpos : H.PosAb) :
+    vecObs (runVec mh H) = treeObs (runTree mh H) := by
+  rw [(vec_refines mh H hwf).1, (tree_refines mh H hwf hpos.noSet).1, runSpec_kind_irrel mh H hpos]
+
+/-- the abstract sample itself is well-formed after any history: keys strictly increasing, at most
+    `num` of them on a num sketch, all ≤ `maxHash` on a scaled sketch -/
+theorem spec_invariant (k : Kind) (mh : Nat) (H : Hist) (hwf : H.WF mh) : SInv (runSpec k mh H) :=
+  runSpec_inv k mh H hwf
 
 /-- "evict the largest while more than `num` are held" leaves exactly the `num` smallest entries -/
 theorem evict_is_bottom (n : Nat) (m : FMap) : evict n m = m.take n := evict_eq_take n m
+
+/-- per-operation refinement (vector type): one step of the model from a state that refines `σ`
+    lands on the abstract step of `σ` -/
+theorem vec_step_refines (s : Vec) (σ : St) (r : VRef s σ) (i : SInv σ) (o : Op) :
+    VRef (vecStep s o) (σ.step .vec o) ∧ SInv (σ.step .vec o) :=
+  ⟨r.vecStep i o, i.step .vec o⟩
+
+/-- per-operation refinement (tree type) -/
+theorem tree_step_refines (s : Tree) (σ : St) (r : TRef s σ) (i : SInv σ) (o : Op) (ho : o.noSet) :
+    TRef (treeStep s o) (σ.step .tree o) ∧ SInv (σ.step .tree o) :=
+  ⟨r.treeStep i o ho, i.step .tree o⟩
+
+/-- merge refinement, both types: the two-pointer walk (vector) and `union.take` + map rebuild
+    (tree) compute the key union with summed abundances, truncated to `num`; the result tracks
+    abundances iff both operands do -/
+theorem merge_refines (s o : Vec) (s' o' : Tree) (σ τ : St) (i : SInv σ) (j : SInv τ)
+    (r : VRef s σ) (q : VRef o τ) (r' : TRef s' σ) (q' : TRef o' τ) :
+    VRef (s.merge o) (σ.merge τ) ∧ TRef (s'.merge o') (σ.merge τ) :=
+  ⟨r.merge q j, r'.merge q' i j⟩
+
+/-! ### non-vacuity: concrete histories hitting eviction, the ceiling, 0 and 2^64−1 -/
+
+/-- num = 2: 2^64−1, 0, 5 inserted; eviction keeps {0,5}; the hypotheses of the theorems hold -/
+example : (Hist.op (.op (.op (.new 2 true) (.add (2 ^ 64 - 1) 3)) (.add 0 1)) (.add 5 2)).WF 0
+    ∧ (Hist.op (.op (.op (.new 2 true) (.add (2 ^ 64 - 1) 3)) (.add 0 1)) (.add 5 2)).PosAb
+    ∧ vecObs (runVec 0 (.op (.op (.op (.new 2 true) (.add (2 ^ 64 - 1) 3)) (.add 0 1)) (.add 5 2)))
+        = ⟨[0, 5], some [1, 2]⟩
+    ∧ treeObs (runTree 0 (.op (.op (.op (.new 2 true) (.add (2 ^ 64 - 1) 3)) (.add 0 1)) (.add 5 2)))
+        = ⟨[0, 5], some [1, 2]⟩ :=
+  ⟨by simp [Hist.WF, WFp], by simp [Hist.PosAb, Op.posAb], by decide, by decide⟩
+
+/-- scaled with ceiling 10: 10 is kept, 11 is not; `add 10 0` removes on the vector type only -/
+example : (Hist.op (.op (.op (.new 0 true) (.add 10 1)) (.add 11 1)) (.add 10 0)).WF 10
+    ∧ (Hist.op (.op (.op (.new 0 true) (.add 10 1)) (.add 11 1)) (.add 10 0)).NoSet
+    ∧ vecObs (runVec 10 (.op (.op (.op (.new 0 true) (.add 10 1)) (.add 11 1)) (.add 10 0))) = ⟨[], some []⟩
+    ∧ treeObs (runTree 10 (.op (.op (.op (.new 0 true) (.add 10 1)) (.add 11 1)) (.add 10 0))) = ⟨[10], some [1]⟩ :=
+  ⟨by simp [Hist.WF, WFp], by simp [Hist.NoSet, Op.noSet], by decide, by decide⟩
+
+/-- a history with a merge of a tracked and an untracked operand satisfies the hypotheses of
+    `vec_tree_equiv` (the differential run replays it: both types answer `mins=4,7 abunds=none`) -/
+example : vecObs (runVec 0 (.merge (.op (.new 3 true) (.add 7 2)) (.op (.new 3 false) (.add 4 1))))
+    = treeObs (runTree 0 (.merge (.op (.new 3 true) (.add 7 2)) (.op (.new 3 false) (.add 4 1)))) :=
+  vec_tree_equiv 0 _ (by simp [Hist.WF, WFp]) (by simp [Hist.PosAb, Op.posAb])
 
 end Sourmash.C01
